@@ -97,7 +97,9 @@ def run_nts(ctx):
     acc = [x for x in recs if x["got"] == "ok" and x["d"]["nts"] == "ok"]
     if nviol == 0 and (len(recs) < len(cases) or not acc or not any(x["il"] for x in acc) or not any(not x["il"] for x in acc) or
             set(per_kind) != {"ok", "absent", "wrongUid", "badTag", "wrongKey", "truncated"} or
-            not any(x["pos"] == 1 and x["d"]["nts"] != "ok" and x["got"] == "error" for x in recs)):
+            # delivered after the retry was spent (what the client then does - error, or skip
+            # because it allows more retries - is not the guard's business)
+            not any(x["pos"] == 1 and x["d"]["nts"] != "ok" for x in recs)):
         raise vlib.Inconclusive("NTS driver coverage incomplete: %s" % per_kind)
     if nviol == 0:
         ok, l, inv, tout = ctx.validate("NtpAcceptTrace", "NtpAcceptTrace_strict.cfg", tp)
